@@ -161,12 +161,29 @@ def short_name(name):
     return re.split(r'::', n)[-1].strip()
 
 
+# words that may occur in an initialiser made of literals only
+INIT_LITERAL_WORDS = {'std', 'string', 'string_view', 'nullptr', 'true', 'false', 'sizeof', 'char', 'int', 'unsigned',
+                      'long', 'short', 'size_t', 'const', 'static', 'u8', 'L', 'u', 'U', 'R', 'ul', 'UL', 'f', 's', 'sv'}
+
+
 def classify(sym, decl):
     if sym['section'] == 'ro':
         return 'ConstInit', 'placed in a read-only section'
     short = re.escape(short_name(sym['name']))
     head = re.split(r'\b' + short + r'\b', decl)[0] if re.search(r'\b' + short + r'\b', decl) else decl
     if re.search(r'\bconst(expr)?\b', head) and not re.search(r'\bconst\s*\*\s*$', head.strip()):
+        if sym['dynamic_init']:
+            # a const object that is initialised on first use (guard variable): constant for everybody only if the
+            # initialiser is made of literals. An initialiser that reads parameters, locals or other run-time data is
+            # decided by the first caller and observed by every later one - shared state between independent threads
+            parts = re.split(r'\b' + short + r'\b', decl, maxsplit=1)
+            init = parts[1] if len(parts) > 1 else ''
+            init = re.sub(r'"(\\.|[^"\\])*"', ' ', init)
+            init = re.sub(r"'(\\.|[^'\\])*'", ' ', init)
+            idents = [i for i in re.findall(r'[A-Za-z_]\w*', init) if i not in INIT_LITERAL_WORDS]
+            if idents:
+                return 'Mutable', ('const object initialised on first use from run-time data (%s): the first caller '
+                                   'decides what every later caller sees' % ', '.join(sorted(set(idents))[:4]))
         return 'ConstInit', 'const object' + (' (guarded dynamic initialisation)' if sym['dynamic_init'] else '')
     if re.search(r'\bstd\s*::\s*(recursive_|timed_|shared_)?mutex\b|\bstd\s*::\s*atomic\b|\bstd\s*::\s*once_flag\b', head):
         return 'Guarded', 'synchronisation object / atomic'
